@@ -89,9 +89,9 @@ var plans = map[string]*Plan{
 	},
 	"C13": {
 		Level:     "exploration",
-		Scenarios: []ScenPlan{{"lbacct", 30000, 600000}, {"sysfault", 8000, 150000}, {"sysws", 3000, 40000}, {"sysxfer", 4000, 60000}},
+		Scenarios: []ScenPlan{{"lbacct", 30000, 600000}, {"sysfault", 8000, 150000}, {"sysws", 3000, 40000}, {"sysxfer", 4000, 60000}, {"lbmix", 8000, 200000}},
 		QuickWallS: 120, ThoroughWallS: 1500,
-		Rule:        "Scenario lbacct: every request class (ok, 4xx, 5xx, unreachable, aborted mid-body, client gone, rate-limited, breaker-rejected, no healthy backend, held) sequentially and with 2-8 (thorough 2-64) concurrent clients; conservation equations against the harness' own tallies at every quiescent point.",
+		Rule:        "Scenario lbacct: every request class (ok, 4xx, 5xx, unreachable, aborted mid-body, client gone, rate-limited, breaker-rejected, no healthy backend, held) sequentially and with 2-8 (thorough 2-64) concurrent clients; conservation equations against the harness' own tallies at every quiescent point. Scenario lbmix: the books balance after traffic interleaved with admin adds and removes, strategy switches, ejections and Stop.",
 		Real:        microReal, Stub: microStub, Assumptions: commonAssumptions,
 		ExpectProbes: []string{"concurrent-mix", "gauge-while-held"},
 	},
